@@ -382,9 +382,9 @@ def run_to_completion(state: State, external_event: Union[dict, Event]) -> State
                             )
                             _push_internal_event(state, colang_error_event)
                             heads_failing.append(head)
-                            if (
-                                flow_state.activated > 0
-                                and not head.catch_pattern_failure_label
+                            if flow_state.activated > 0 and (
+                                not head.catch_pattern_failure_label
+                                or event.name in InternalEvents.ALL
                             ):
                                 # Avoid an activated flow with a faulty match statement from being
                                 # restarted: the new instance would fail again (at once, if the
